@@ -3,3 +3,7 @@ HOOK_COMMITS = []
 add("C01", "TLC exhaustive case enumeration of Capture.tla + integer-exact replay into the code + TLC trace validation of recorded calls",
     "Capture.tla states the trapezoid rule pairwise; TLC enumerates every shape class x domain variant x lattice array (invariants: pairwise-only, dx==domain, definition==oracle), every state is replayed into calculate_capture / integral / ReceptorEstimator.capture and must match as exact integers; random larger lattice executions are recorded and accepted or rejected by Trace_C01 under TLC.",
     "Trusted: TLC, the TLA+ value parser, numpy float exactness on small integers/dyadics. Lattice values only (DESIGN L1).")
+
+add("C03", "TLC: exact zonotope/cone membership class of every lattice target (H-form oracle == V-form definition as invariant); replay of all (system, target) pairs into the membership API",
+    "Convex.tla defines in-gamut as reproducibility by in-bound intensities; TLC proves on every lattice system x target that the facet (H-form) oracle equals vertex enumeration of the solution polytope (V-form), and emits the exact class of each target; every pair is replayed into ReceptorEstimator.in_hull, in_hull_from_A, in_hull(cloud) and the chromatic variant: interior must be accepted, exterior rejected.",
+    "Trusted: TLC, parser. Lattice only: <=3 receptors x <=4 sources exhaustively, boundary targets recorded but not asserted; distance of asserted targets to the boundary >= ~1e-2.")
